@@ -63,6 +63,20 @@ def families(tier, seed):
             for es in [{(0, 1), (1, 2)}, {(0, 2)}, {(1, 0), (2, 1)}, {(2, 0)}, {(0, 1), (0, 2)}, {(1, 2), (2, 0)}]:
                 es2 = {(a, b) for (a, b) in es if a != td}
                 out.append(("todo-scoped", graphgen.graph_cfg(3, es2, scopes=dict(enumerate(sc)), todos=(td,))))
+    for refs in [["%x%", "@x"], ["!tagged x", "@x"], ["@x", "%x%"], ["%x%", "!tagged x", "@x"], ["%x%"], ["!tagged x"]]:
+        for perm in itertools.permutations(refs):
+            for where in ("arguments", "decorator", "calls"):
+                for carrier_scope in ("contextual", None):
+                    svcs = {"a": {"constructor": "NewA", "scope": "shared", "tags": ["deco"]}, "x": {"constructor": "NewA", "scope": "contextual"},
+                            "c": dict({"constructor": "NewA", "tags": ["x"]}, **({"scope": carrier_scope} if carrier_scope else {}))}
+                    cfg = {"parameters": {"x": "v"}, "services": svcs}
+                    if where == "arguments":
+                        svcs["a"]["arguments"] = list(perm)
+                    elif where == "calls":
+                        svcs["a"]["calls"] = [["Init"], ["SetX", list(perm)]]
+                    else:
+                        cfg["decorators"] = [{"tag": "deco", "decorator": "Decorate", "arguments": list(perm)}]
+                    out.append(("namesakes", cfg))
     # a reference to an undeclared service is not a scope matter, wherever it stands among the arguments
     for k in range(60 if tier == "quick" else 1500):
         n = r.randint(3, 5)
